@@ -196,3 +196,32 @@ def norm_sub(t):
 def group0(t, m):
     """t is m.group(0) or m.group() or m[0]"""
     return t in (("call", ("attr", m, "group"), (("const", 0),), ()), ("call", ("attr", m, "group"), (), ()), ("sub", m, ("const", 0)))
+
+
+def as_format(t):
+    """If t is a formatted-string term (f-string, str.format or % — all normalised to ("fstr", parts))
+    return (template with {} placeholders, [argument terms]); None if a field has a conversion or spec."""
+    if not (isinstance(t, tuple) and t and t[0] == "fstr"):
+        return None
+    tmpl, args = "", []
+    for x in t[1]:
+        if x[0] == "const":
+            tmpl += str(x[1]).replace("{", "{{").replace("}", "}}")
+        elif x[0] == "fmt" and x[2] is None and x[3] is None:
+            tmpl += "{}"
+            args.append(x[1])
+        else:
+            return None
+    return tmpl, args
+
+
+def fstr(*parts):
+    """Build the canonical formatted-string term: str parts are literals, tuples are plain {} fields."""
+    out = []
+    for x in parts:
+        if isinstance(x, str):
+            if x:
+                out.append(("const", x))
+        else:
+            out.append(("fmt", x, None, None))
+    return ("fstr", tuple(out))
